@@ -1,6 +1,6 @@
 from __future__ import annotations
 
-from typing import List, Optional, Set, Dict, Union
+from typing import Any, List, Optional, Dict, Union
 
 from excel2pycl.src.handle_cell import handle_cell
 from excel2pycl.src.utilities.abstract_excel_in_python_class import AbstractExcelInPython
@@ -16,7 +16,7 @@ class Executor:
         """
         self._cells_have_been_changed: bool = False
         self._executed_instance: Optional[AbstractExcelInPython] = None
-        self._cells: Set[Cell] = set()
+        self._cells: Dict[str, Dict[str, Any]] = {}
         self._titles: Dict[str, int] = {}
         self._sheets_size: List[Dict[str, int]] = []
 
@@ -71,7 +71,8 @@ class Executor:
             self._sheets_size[sheet]['last_row'] = max(row, self._sheets_size[sheet]['last_row'])
             self._sheets_size[sheet]['last_column'] = max(column, self._sheets_size[sheet]['last_column'])
 
-        self._cells = {*cells, *self._cells}
+            self._cells[cell.uid] = cell.to_dict()
+
         self._cells_have_been_changed = True
         return self
 
@@ -82,7 +83,7 @@ class Executor:
         Returns:
             Executor.
         """
-        self._executed_instance.set_arguments([cell.to_dict() for cell in self._cells])
+        self._executed_instance.set_arguments(list(self._cells.values()))
         self._cells_have_been_changed = False
         return self
 
